@@ -6,6 +6,7 @@ import (
 	"regexp"
 	"strings"
 	"testing"
+	"unicode/utf8"
 
 	"github.com/grindlemire/go-lucene/verif/gen"
 	"github.com/grindlemire/go-lucene/verif/model"
@@ -291,6 +292,41 @@ func TestC02(t *testing.T) {
 		for split := len(tu) - 1; split >= 0; split-- {
 			run("colon-splits", mk(split))
 		}
+	}
+
+	// every hostile payload as the field name (and as the default field) of every
+	// leaf form, written quoted and as an escaped bare word
+	st.Stream("payload-x-form", true, fmt.Sprintf("each of the %d hostile-pool entries as field name / default field x {quoted, escaped} x 10 leaf forms", len(gen.HostilePool)))
+	forms := func(f *gen.Val) []*gen.Node {
+		return []*gen.Node{
+			{K: gen.NField, Field: f, V: gen.Word("v")}, {K: gen.NCmp, Field: f, Cmp: ">=", V: gen.Int(5)},
+			{K: gen.NRange, Field: f, Lo: gen.Int(1), Hi: gen.Int(5), IncLo: true, IncHi: true}, {K: gen.NRange, Field: f, Lo: gen.Float("1.5"), Hi: gen.Float("2.5")},
+			{K: gen.NRange, Field: f, Lo: gen.Word("a"), Hi: gen.Quoted("b c"), IncLo: true, IncHi: true}, {K: gen.NRange, Field: f, Lo: nil, Hi: gen.Int(5), IncLo: true, IncHi: true},
+			{K: gen.NList, Field: f, Vals: []*gen.Val{gen.Word("x"), gen.Int(2)}}, {K: gen.NField, Field: f, V: gen.Wild("w*")}, {K: gen.NField, Field: f, V: gen.Regexp("re")},
+			{K: gen.NNot, L: &gen.Node{K: gen.NField, Field: f, V: gen.Quoted("it's")}},
+		}
+	}
+	pi := 0
+	for _, h := range gen.HostilePool {
+		var spellings []*gen.Val
+		if !strings.Contains(h, `"`) {
+			spellings = append(spellings, gen.Quoted(h))
+		}
+		if h != "" && utf8.ValidString(h) && !gen.IsNumeric(h) && !gen.IsKeyword(h) {
+			spellings = append(spellings, gen.EscapedWord(h))
+		}
+		for _, f := range spellings {
+			for _, n := range forms(f) {
+				if pi%cfg.NShards == cfg.Shard {
+					run("payload-x-form", SQLCase{Tree: n})
+				}
+				pi++
+			}
+		}
+		if pi%cfg.NShards == cfg.Shard {
+			run("payload-x-form", SQLCase{Tree: &gen.Node{K: gen.NAnd, L: &gen.Node{K: gen.NTerm, V: gen.Word("x")}, R: &gen.Node{K: gen.NRange, Field: gen.Word("n"), Lo: gen.Int(1), Hi: gen.Int(5), IncLo: true, IncHi: true}}, DF: h})
+		}
+		pi++
 	}
 
 	tcfg := gen.ParseCfg
